@@ -14,7 +14,26 @@ func (x *X) runLoop(fr *frame, order []*ssa.BasicBlock, li *loopInfo, done map[i
 		done[b] = true
 	}
 	if x.mode == modeSummary {
-		x.summariseLoop(fr, order, li)
+		func() {
+			saveParam, saveLoop, saveExits, saveNo := x.sc.paramName, fr.inLoop, fr.exitsTo, x.noOblig
+			saveIn := fr.in[li.header.Index]
+			defer func() {
+				if r := recover(); r != nil {
+					u, ok := r.(unsupported)
+					if !ok || saveParam != "" {
+						panic(r)
+					}
+					// The loop is outside the subset: the enclosing lemma stays valid only
+					// if the loop is unreachable; that becomes a side condition to prove.
+					x.sc.paramName, fr.inLoop, fr.exitsTo, x.noOblig = saveParam, saveLoop, saveExits, saveNo
+					entry := x.mergeEdges(saveIn)
+					if entry != nil {
+						x.sideConds = append(x.sideConds, sideCond{cond: entry.cond, why: FuncName(fr.fn) + ": " + u.why})
+					}
+				}
+			}()
+			x.summariseLoop(fr, order, li)
+		}()
 		return
 	}
 	x.cutLoop(fr, order, li)
@@ -96,6 +115,9 @@ func (x *X) summariseLoop(fr *frame, order []*ssa.BasicBlock, li *loopInfo) {
 	}
 	entry := x.mergeEdges(entries)
 	if entry == nil {
+		return
+	}
+	if x.unreachable(entry.cond) {
 		return
 	}
 	// initial counter value
@@ -233,4 +255,18 @@ func replaceTok(s, from, to string) string {
 // invariant, run the body, invariant on every back edge.
 func (x *X) cutLoop(fr *frame, order []*ssa.BasicBlock, li *loopInfo) {
 	unsup("loops in VC mode not implemented yet")
+}
+
+// unreachable asks a solver whether cond contradicts the assumptions made so
+// far (used to prune dead loops before summarising them).
+func (x *X) unreachable(cond string) bool {
+	if cond == "true" || x.inline {
+		return false
+	}
+	if cond == "false" {
+		return true
+	}
+	q := instVariant(x.sc.Text()) + x.strLitDecls() + "(assert " + cond + ")\n"
+	r := SolveWith("prune", q, 3, []string{"z3-new-5.1.0"})
+	return r == "unsat"
 }
